@@ -1,7 +1,7 @@
-(* C01 - running a program yields exactly what its source text denotes. Property theorems only (definitional semantics in spec/Sem.v; fragments and observation relations in spec/Fragment*.v; proofs in proofs/CompileCorrectA.v ... I.v). FULL STATEMENT (compile_correct): forall p, wf_prog p -> forall fuel r, sem_program orc fuel p = r -> r <> SemFuel -> exists budget, obs_eq (run_program orc bc budget) r. PROVED so far (hence `_partial`): fragment F3 = scalar and function values: integer/boolean literals, all 13 binary and both prefix operators, variables in nested block scopes (slot reuse), assignment, blocks, als / anders als / anders as statement and value, zolang with stop / volgende, FUNCTIONS: named and anonymous literals, parameters, locals, calls (arguments left to right, then the callee), antwoord from any depth, recursion, functions stored in variables / passed / returned, and the fused local-constant instructions (compile_correct_F3; F2 = the same without functions, F1 without control flow). Run-time events excluded by the theorem's disjunct `hits_excluded` (a property of the machine run): a call beyond the 16-bit stack / frame limits (4.3 item 5) and ==/!= on two function values (4.3 item 14). Heap values and builtins (fragment F2h) are in progress; outside the proved fragments the statement is carried per program by the correspondence of Compiler.v/VM.v with the implementation AND the evaluation of Sem.v on the same tree inside Coq. *)
+(* C01 - running a program yields exactly what its source text denotes. Property theorems only (definitional semantics in spec/Sem.v; fragments and observation relations in spec/Fragment*.v; proofs in proofs/CompileCorrectA.v ... I.v). FULL STATEMENT (compile_correct): forall p, wf_prog p -> forall fuel r, sem_program orc fuel p = r -> r <> SemFuel -> exists budget, obs_eq (run_program orc bc budget) r. PROVED so far (hence `_partial`): fragment F3 = scalar and function values: integer/boolean literals, all 13 binary and both prefix operators, variables in nested block scopes (slot reuse), assignment, blocks, als / anders als / anders as statement and value, zolang with stop / volgende, FUNCTIONS: named and anonymous literals, parameters, locals, calls (arguments left to right, then the callee), antwoord from any depth, recursion, functions stored in variables / passed / returned, and the fused local-constant instructions (compile_correct_F3; F2 = the same without functions, F1 without control flow). Run-time events excluded by the theorem's disjunct `hits_excluded` (a property of the machine run): a call beyond the 16-bit stack / frame limits (4.3 item 5) and ==/!= on two function values (4.3 item 14). ALSO PROVED: fragment F2h = F2 + HEAP VALUES + BUILTINS at top level (compile_correct_F2h): float / string / array literals, operators on floats and strings, indexing and index assignment on arrays and strings (aliasing, negative indices, errors), all seven builtins with the printed OUTPUT, result compared as a value GRAPH under a location correspondence after the collector is dropped; hypotheses: lits_exact (no two IEEE-equal but distinct float literals such as 0.0 and -0.0 - only a hand-built tree can contain -0.0 as a literal), sem_small (heap below 2^60 objects). What remains for the full statement is the COMBINATION of functions with heap values (the collector then runs during the program). Outside the proved fragments the statement is carried per program by the correspondence of Compiler.v/VM.v with the implementation AND the evaluation of Sem.v on the same tree inside Coq. *)
 From NL.Model Require Import Pipeline.
-From NL.Spec Require Import Sem Fragment Fragment2 Fragment3.
-From NL.Proofs Require CompileCorrectA CompileCorrectB CompileCorrectC CompileCorrectD CompileCorrectI.
+From NL.Spec Require Import Sem Fragment Fragment2 Fragment2h Fragment3.
+From NL.Proofs Require CompileCorrectA CompileCorrectB CompileCorrectC CompileCorrectD CompileCorrectI CompileCorrectH5.
 Open Scope Z_scope.
 
 (* compiler correctness on fragment F3 (F2 + functions, calls, recursion, first-class functions, fused instructions): what the machine computes from the compiled bytecode is what the definitional semantics assigns to the tree, unless the run hits one of the two excluded run-time events *)
@@ -11,6 +11,18 @@ Proof. exact CompileCorrectI.compile_correct_F3. Qed.
 (* every F3 program the compiler accepts passes the semantics' static pass *)
 Theorem static_accepts_F3 : forall (p : block) (bc : bytecode) (fuel : nat), in_F3 p = true -> compile p = Ok bc -> (size3_b p <= fuel)%nat -> static_check fuel p = None.
 Proof. exact CompileCorrectI.static_accepts_F3. Qed.
+
+(* compiler correctness on fragment F2h (F2 + float/string/array values, indexing, index assignment, the seven builtins incl. printed output): result graph, output and error kind agree *)
+Theorem compile_correct_F2h : forall (orc : oracle) (p : block), in_F2h p = true -> ends_expr p = true -> lits_exact (lits_b p) -> forall bc : bytecode, compile p = Ok bc -> forall fuel : nat, (size2h_b p <= fuel)%nat -> sem_program orc fuel p <> SemFuel -> sem_small orc fuel p (length (b_constants bc)) -> exists budget : nat, obs_eq_h (run_program orc bc budget) (sem_program orc fuel p).
+Proof. exact CompileCorrectH5.compile_correct_F2h. Qed.
+
+(* every F2h program the compiler accepts passes the semantics' static pass *)
+Theorem static_accepts_F2h : forall (p : block) (bc : bytecode) (fuel : nat), in_F2h p = true -> compile p = Ok bc -> (size2h_b p <= fuel)%nat -> static_check fuel p = None.
+Proof. exact CompileCorrectH5.static_accepts_F2h. Qed.
+
+(* F2 is contained in F2h *)
+Theorem in_F2_in_F2h : forall p : block, in_F2 p = true -> in_F2h p = true.
+Proof. exact CompileCorrectH5.in_F2_in_F2h. Qed.
 
 (* fragment F2 (no functions): unconditional, no excluded events *)
 Theorem compile_correct_F2 : forall (orc : oracle) (p : block), in_F2 p = true -> ends_expr p = true -> forall bc : bytecode, compile p = Ok bc -> forall fuel : nat, (size2_b p <= fuel)%nat -> sem_program orc fuel p <> SemFuel -> exists budget : nat, obs_eq (run_program orc bc budget) (sem_program orc fuel p).
@@ -39,6 +51,9 @@ Proof. exact CompileCorrectB.static_reject_F1. Qed.
 
 Print Assumptions compile_correct_partial.
 Print Assumptions static_accepts_F3.
+Print Assumptions compile_correct_F2h.
+Print Assumptions static_accepts_F2h.
+Print Assumptions in_F2_in_F2h.
 Print Assumptions compile_correct_F2.
 Print Assumptions static_accepts_F2.
 Print Assumptions compile_correct_F1.
